@@ -89,6 +89,12 @@ def generate(job):
     for _ in range(rb.weighted([(0, 3), (1, 4), (2, 2)])):
         lo = round(rb.uniform(-2, 1), 3)
         hi = round(lo + rb.uniform(0.5, 4), 3)
+        if rb.chance(0.3):
+            # a limit of exactly 0 (a radius, a width, a one-sided phase window)
+            if rb.chance(0.5):
+                lo, hi = 0.0, round(rb.uniform(0.5, 4), 3)
+            else:
+                lo, hi = round(-rb.uniform(0.5, 4), 3), 0.0
         kind = rb.weighted([("two", 5), ("lower", 2), ("upper", 2)])
         func = rb.choice(FUNCS) if kind == "two" else None
         bounds.append({"name": rb.randrange(100), "lo": None if kind == "upper" else lo, "hi": None if kind == "lower" else hi, "func": func})
